@@ -232,9 +232,9 @@ Definition json_kind_decl (p : prim) : N :=
   | PCFloat32 => 16
   | PCFloat64 => 16
   | PString => 8
-  | PDate => 4
-  | PTime => 4
-  | PDateTime => 4
+  | PDate => 12
+  | PTime => 12
+  | PDateTime => 12
   end.
 
 (* types.go:primitiveTypes aliases *)
